@@ -505,11 +505,23 @@ theorem case_for (code : Code) (fuel : Nat) (ih : StmtIHle code fuel) (htp : Exe
         have s2 : CoreVm.step code σ1 = .next σ2 := by simp only [CoreVm.step, σ1, σc, afterExpr, advance, i1]; rfl
         have s3 : CoreVm.step code σ2 = .next σ3 := by
           simp only [CoreVm.step, σ2, σ1, σc, afterExpr, advance, setA, i2]; rfl
-        have pre : Steps code σ σ3 := pre3.trans (Steps.cons s1 (Steps.cons s2 (Steps.one s3)))
-        have hr3 : Rel (s.set x l) σ3 := rel_of _ _ hrb.env hrb.out hrb.skip hrb.data hrb.dataIdx hrb.queue
+        -- the resume point: `jump for-begin; jump out-of-for; label for-begin`
+        have i3 := hrest.append_left.append_left.tail.tail.tail.head
+        have i5 := hrest.append_left.append_left.tail.tail.tail.tail.tail.head
+        let σ4 : Vm := { σ3 with pc := (off + (compileExprTo lo t).length + 2 + (compileExprTo hi t).length) + 5 }
+        let σ5 : Vm := advance σ4
+        have s4 : CoreVm.step code σ3 = .next σ4 := by
+          simp only [CoreVm.step, σ3, σ2, σ1, σc, afterExpr, advance, setA, i3]; rfl
+        have s5 : CoreVm.step code σ4 = .next σ5 := by
+          have : code[σ4.pc]? = some (CInstr.label (labelName "for-begin" p sfx), p) := by
+            rw [← i5]
+          simp only [CoreVm.step, this]; rfl
+        have pre : Steps code σ σ5 :=
+          pre3.trans (Steps.cons s1 (Steps.cons s2 (Steps.cons s3 (Steps.cons s4 (Steps.one s5)))))
+        have hr3 : Rel (s.set x l) σ5 := rel_of _ _ hrb.env hrb.out hrb.skip hrb.data hrb.dataIdx hrb.queue
         have hloop := for_loop code fuel ih htp x t body p sfx true _ _ h (.int 1) sl hx hwb
-          hrest.append_left.append_right fuel (Nat.le_refl _) σ3 (s.set x l) rfl rfl rfl hr3 htyb
-        refine for_finish code σ σ3 s (s.set x l) _ off _ (labelName "out-of-for" p sfx) p pre ⟨rfl, rfl, rfl⟩ ?_ ?_ hlenb _ hloop
+          hrest.append_left.append_right fuel (Nat.le_refl _) σ5 (s.set x l) rfl rfl rfl hr3 htyb
+        refine for_finish code σ σ5 s (s.set x l) _ off _ (labelName "out-of-for" p sfx) p pre ⟨rfl, rfl, rfl⟩ ?_ ?_ hlenb _ hloop
         · have := hrest.append_right.head
           simp only [List.length_append, List.length_cons, List.length_nil, len_forBody, len_stmt] at this
           rw [← this]; congr 1
@@ -558,14 +570,27 @@ theorem case_for (code : Code) (fuel : Nat) (ih : StmtIHle code fuel) (htp : Exe
             simp only [CoreVm.step, σ3, σ2, σ1, σc, afterExpr, advance, i1]; rfl
           have s5 : CoreVm.step code σ4 = .next σ5 := by
             simp only [CoreVm.step, σ4, σ3, σ2, σ1, σc, afterExpr, advance, setA, i2]; rfl
-          have pre5 : Steps code σ σ5 :=
-            (pre3.trans (Steps.cons sp st5)).trans (Steps.cons s3 (Steps.cons s4 (Steps.one s5)))
-          have hsign := for_sign code p se.pos _ _ _ ((off + (compileExprTo lo t).length + 2 + (compileExprTo hi t).length) + 1 + (compileExpr se).length + 1 + 1 + 1) _ _ σ5 h8.tail.tail.tail
+          -- the resume point: `jump for-begin; jump out-of-for; label for-begin`
+          have i3 := h8.tail.tail.tail.head
+          have i5 := h8.tail.tail.tail.tail.tail.head
+          let σ5a : Vm := { σ5 with pc := (off + (compileExprTo lo t).length + 2 + (compileExprTo hi t).length) + 1 + (compileExpr se).length + 5 }
+          let σ5b : Vm := advance σ5a
+          have s5a : CoreVm.step code σ5 = .next σ5a := by
+            simp only [CoreVm.step, σ5, σ4, σ3, σ2, σ1, σc, afterExpr, advance, setA, i3]; rfl
+          have s5b : CoreVm.step code σ5a = .next σ5b := by
+            have : code[σ5a.pc]? = some (CInstr.label (labelName "for-begin" p sfx), p) := by
+              rw [← i5]
+            simp only [CoreVm.step, this]; rfl
+          have pre5 : Steps code σ σ5b :=
+            (pre3.trans (Steps.cons sp st5)).trans
+              (Steps.cons s3 (Steps.cons s4 (Steps.cons s5 (Steps.cons s5a (Steps.one s5b)))))
+          have hsign := for_sign code p se.pos _ _ _ ((off + (compileExprTo lo t).length + 2 + (compileExprTo hi t).length) + 1 + (compileExpr se).length + 5 + 1) _ _ σ5b
+            h8.tail.tail.tail.tail.tail.tail
             (CodeAt.at_for h5.tail (by simp only [List.length_append, List.length_cons, List.length_nil, len_forBody, len_stmt, sizeForBody]; omega))
             (CodeAt.at_for h4.tail (by simp only [List.length_append, List.length_cons, List.length_nil, len_forBody, len_stmt, sizeForBody]; omega)) rfl
-          have hd5 : σ5.regs.d = sv := rfl
+          have hd5 : σ5b.regs.d = sv := rfl
           rw [hd5] at hsign
-          have hlab : code[(off + (compileExprTo lo t).length + 2 + (compileExprTo hi t).length) + 1 + (compileExpr se).length + 8 + sizeForBody x body + 1 + 4 + sizeForBody x body + 1 + 2]? =
+          have hlab : code[(off + (compileExprTo lo t).length + 2 + (compileExprTo hi t).length) + 1 + (compileExpr se).length + 11 + sizeForBody x body + 1 + 4 + sizeForBody x body + 1 + 2]? =
               some (CInstr.label (labelName "out-of-for" p sfx), p) := by
             have := h4.tail.tail.tail.head
             rw [← this]; congr 1
@@ -576,15 +601,15 @@ theorem case_for (code : Code) (fuel : Nat) (ih : StmtIHle code fuel) (htp : Exe
             simp only [hcm] at hsign ⊢
             simp only [StmtSpec]
             exact ⟨_, ErrsWith.of_steps pre5
-              (by have := hsign; rw [show σ5.out = (s.set x l).out from hrb.out] at this; exact this)⟩
+              (by have := hsign; rw [show σ5b.out = (s.set x l).out from hrb.out] at this; exact this)⟩
           | inexact => simp [StmtSpec]
           | ok o =>
             cases o with
             | lt =>
               simp only [hcm] at hsign ⊢
               obtain ⟨a, st6⟩ := hsign
-              let σ6 : Vm := { σ5 with pc := (off + (compileExprTo lo t).length + 2 + (compileExprTo hi t).length) + 1 + (compileExpr se).length + 1 + 1 + 1 + 5, regs := ⟨a, .int 0, h, sv⟩ }
-              have st6' : Steps code σ5 σ6 := st6
+              let σ6 : Vm := { σ5b with pc := (off + (compileExprTo lo t).length + 2 + (compileExprTo hi t).length) + 1 + (compileExpr se).length + 5 + 1 + 5, regs := ⟨a, .int 0, h, sv⟩ }
+              have st6' : Steps code σ5b σ6 := st6
               have hr6 : Rel (s.set x l) σ6 := rel_of _ _ hrb.env hrb.out hrb.skip hrb.data hrb.dataIdx hrb.queue
               have hloop := for_loop code fuel ih htp x t body p sfx false _ _ h sv sl hx hwb
                 (CodeAt.at_for hneg (by simp only [List.length_append, List.length_cons, List.length_nil, len_forBody, len_stmt, sizeForBody]; omega))
@@ -595,9 +620,8 @@ theorem case_for (code : Code) (fuel : Nat) (ih : StmtIHle code fuel) (htp : Exe
             | gt =>
               simp only [hcm] at hsign ⊢
               obtain ⟨a, st6⟩ := hsign
-              let σ6 : Vm := { σ5 with pc := (off + (compileExprTo lo t).length + 2 + (compileExprTo hi t).length) + 1 + (compileExpr se).length + 8 + sizeForBody x body + 1 + 4,
-                                       regs := ⟨a, .int 0, h, sv⟩ }
-              have st6' : Steps code σ5 σ6 := st6
+              let σ6 : Vm := { σ5b with pc := (off + (compileExprTo lo t).length + 2 + (compileExprTo hi t).length) + 1 + (compileExpr se).length + 11 + sizeForBody x body + 1 + 4, regs := ⟨a, .int 0, h, sv⟩ }
+              have st6' : Steps code σ5b σ6 := st6
               have hr6 : Rel (s.set x l) σ6 := rel_of _ _ hrb.env hrb.out hrb.skip hrb.data hrb.dataIdx hrb.queue
               have hloop := for_loop code fuel ih htp x t body p sfx true _ _ h sv sl hx hwb
                 (CodeAt.at_for hpos (by simp only [List.length_append, List.length_cons, List.length_nil, len_forBody, len_stmt, sizeForBody]; omega))
@@ -609,6 +633,6 @@ theorem case_for (code : Code) (fuel : Nat) (ih : StmtIHle code fuel) (htp : Exe
               simp only [hcm] at hsign ⊢
               simp only [StmtSpec]
               exact ⟨_, ErrsWith.of_steps pre5
-                (by have := hsign; rw [show σ5.out = (s.set x l).out from hrb.out] at this; exact this)⟩
+                (by have := hsign; rw [show σ5b.out = (s.set x l).out from hrb.out] at this; exact this)⟩
 
 end RbThm.C01Sim
